@@ -736,8 +736,7 @@ def derivation_obligations(repo):
         rec("validators:create/O/class-attr:%s" % k, body.get(k) == v, "class attribute %s = %s (expected %s)" % (k, body.get(k), v))
     # extend(): proved by symbolic execution (contracts/tasks_derive.py: derive:extend)
     # the class's methods look ids up through the closure variable id_of
-    init = _ast.unparse(repo.units["validators:create.Validator.__init__"].node)
-    rec("validators:create.Validator.__init__/F/id_of", "RefResolver.from_schema(schema, id_of=id_of)" in init, "a validator's own resolver is built with the class's id_of")
+    # Validator.__init__: proved by symbolic execution (contracts/tasks_derive.py: derive:validator_init)
     it = _ast.unparse(repo.units["validators:create.Validator.iter_errors"].node)
     rec("validators:create.Validator.iter_errors/F/id_of", "scope = id_of(_schema)" in it, "iter_errors takes the scope of a subschema from the class's id_of")
     cs = _ast.unparse(repo.units["validators:create.Validator.check_schema"].node)
